@@ -11,32 +11,41 @@ BE, LE = rn.BE, rn.LE
 
 
 def run(chk, F, tier):
-    chk.rule("V1.dispatch", floor=2, doc="vbyte_write::<E>/vbyte_read::<E> call the _be function exactly when E is BigEndian, the _le one otherwise (Endianness is sealed: two implementors)")
+    chk.rule("V1.dispatch", floor=2, doc="vbyte_write::<E> / vbyte_read::<E>, interpreted with E = BigEndian and E = LittleEndian and the four endianness-specific functions stubbed: exactly the function of that endianness is called, with the entry point's own arguments, and its result is returned (Endianness is sealed: two implementors)")
+    import ivl
+    from ivl import AI, Agg, Ref, Frame, Opaque, mk_variant
     for nm in ("vbyte_write", "vbyte_read"):
         b = F.body("codes::vbyte::" + nm)
-        ok = True
-        seen = set()
         why = []
-        for p in mir.walk(b):
-            if p.end[0] != "return":
+        seen = set()
+        for e, ety in (("be", BE), ("le", LE)):
+            calls = []
+
+            def stub(it, name, args, fargs, fr, t, calls=calls):
+                calls.append((name, list(args)))
+                return mk_variant("std::result::Result", "Ok", [AI("usize" if "write" in name else "u64", 4242, 4242)])
+            hs = {"codes::vbyte::%s_%s" % (nm, x): stub for x in ("be", "le")}
+            try:
+                it = ivl.Interp(F, 0, 0, hs)
+                sh = Frame({"path": "stream"}, {})
+                sh.locals[0] = Opaque("the byte stream")
+                args = ([AI("u64", 777, 777), Ref(sh, 0, ())] if nm == "vbyte_write" else [Ref(sh, 0, ())])
+                env = {g: g for g in (b.get("generics") or [])}
+                env["E"] = ety
+                r = it.call_body(b, args, env, 0)
+            except (ivl.Unsupported, ivl.Undecided, ivl.Panic) as ex:
+                why.append("E = %s: cannot be interpreted (%s)" % (e.upper(), ex))
                 continue
-            tests = typeid_tests(p)
-            calls = [ev for ev in p.calls() if ev[1].startswith("codes::vbyte::" + nm + "_")]
-            if len(tests) != 1 or len(calls) != 1:
-                ok = False
-                why.append("%d tests / %d calls" % (len(tests), len(calls)))
-                continue
-            a, bb, truth = tests[0]
-            other = bb if a == "E" else a
-            is_be = (other == BE) == truth
-            want = nm + ("_be" if is_be else "_le")
-            seen.add(want)
-            # arguments passed through, result returned
-            args_ok = all(x[0] == "arg" or (x[0] == "ref" and x[1][0] == "deref") for x in calls[0][8])
-            if calls[0][1] != "codes::vbyte::" + want or p.ret != calls[0][3] or "E" not in (a, bb) or other not in (BE, LE):
-                ok = False
-                why.append("E %s %s -> %s" % ("==" if truth else "!=", other.split("::")[-1], calls[0][1].split("::")[-1]))
-        chk.expect("V1.dispatch", nm, ok and seen == {nm + "_be", nm + "_le"}, "codes::vbyte::%s dispatches wrongly: %s" % (nm, why), sample={"fn": nm, "targets": sorted(seen)})
+            want = "codes::vbyte::%s_%s" % (nm, e)
+            okc = len(calls) == 1 and calls[0][0] == want
+            if okc:
+                seen.add(want.split("::")[-1])
+                a = calls[0][1]
+                okc = (nm == "vbyte_read" or (isinstance(a[0], AI) and a[0].const() == 777)) and isinstance(a[-1], Ref) and a[-1].frame is sh
+                okc = okc and isinstance(r, Agg) and r.variant == "Ok" and isinstance(r.fields[0], AI) and r.fields[0].const() == 4242
+            if not okc:
+                why.append("E = %s -> %s, result %r" % (e.upper(), [c[0].split("::")[-1] for c in calls], r))
+        chk.expect("V1.dispatch", nm, not why and seen == {nm + "_be", nm + "_le"}, "codes::vbyte::%s dispatches wrongly: %s" % (nm, why), sample={"fn": nm, "targets": sorted(seen)})
     sealed = [i for i in F.impls if (i.get("trait_def") or "").endswith("endianness::private::Endianness")]
     chk.expect("V1.dispatch", "sealed", sorted(i["self_ty"] for i in sealed) == ["traits::endianness::BigEndian", "traits::endianness::LittleEndian"],
                "the sealed Endianness trait has implementors %s" % sorted(i["self_ty"] for i in sealed))
@@ -45,6 +54,21 @@ def run(chk, F, tier):
     for nm in ("vbyte_write_be", "vbyte_write_le", "vbyte_read_be", "vbyte_read_le"):
         b = F.body("codes::vbyte::" + nm)
         d = rr.discipline(F, b, callee_filter=lambda e: e[1].startswith("std::io::"))
+        # private helpers of the module that do the I/O for this function are held to the same discipline
+        todo, done = [b], {b["path"]}
+        while todo:
+            cur = todo.pop()
+            for bl in cur["blocks"]:
+                t_ = bl["term"]
+                if t_.get("k") != "call":
+                    continue
+                for cn in ((t_["func"].get("resolved") or {}).get("fn"), t_["func"].get("fn")):
+                    cb = F.by_path.get(cn or "", [])
+                    if len(cb) == 1 and cb[0].get("blocks") and cb[0]["path"] not in done and cb[0]["kind"] == "Fn" and cn.startswith("codes::vbyte::") \
+                            and not cn.split("::")[-1].startswith(("vbyte_read", "vbyte_write")):
+                        done.add(cb[0]["path"])
+                        todo.append(cb[0])
+                        d.update({(k[0], "%s:%s" % (cb[0]["path"].split("::")[-1], k[1])): v for k, v in rr.discipline(F, cb[0], callee_filter=lambda e: e[1].startswith("std::io::")).items()})
         bad = []
         for (callee, line), ent in d.items():
             if ent["kinds"] - rr.OK_KINDS - {"matched-ok"}:
